@@ -2,6 +2,14 @@
 """Print the prompt for a seeding sub-agent: property text + its scratch worktree only."""
 import json, sys
 pid = sys.argv[1].upper(); wt = sys.argv[2]
+avoid = ''
+import glob, os
+prev = []
+for d in sorted(glob.glob('/verif/seeded/' + pid.lower() + '-*/meta.json')):
+    m = json.load(open(d))
+    prev.append('- files ' + ', '.join(m.get('files_changed', [])) + ': ' + str(m.get('summary', ''))[:300])
+if prev:
+    avoid = ('\nOther people have already produced the following changes for this property; yours must use a DIFFERENT mechanism and preferably a different code site (do not re-introduce or vary these):\n' + '\n'.join(prev) + '\n')
 for l in open('/verif/properties.jsonl'):
     p = json.loads(l)
     if p['id'] == pid: break
@@ -14,6 +22,7 @@ The property that your change must break:
   Quantified over: {p['quantifier']['text']}
   Code it is anchored in: {', '.join(p['anchors']['files'])}
 
+{avoid}
 Task: make ONE small source change (a few lines, in non-test .go files) in {wt} that a developer could plausibly make by mistake or as a well-meant refactoring/optimisation, such that
   1. the project still compiles, and the EXISTING tests of the packages you touched (and their direct dependents among backend, proxy/..., mysql, util, models, cc) still pass;
   2. the property above is violated by the changed code, but NOT in a way ordinary use would expose at once: the violation must need something specific to manifest — a particular interleaving, a fault or error at a particular point, a multi-step sequence of operations, an unusual/boundary input, or two cooperating code sites that each look fine alone;
